@@ -610,30 +610,46 @@ func checkReactiveRegistration(r *Reporter, p *Prog, pkg, typ string) {
 	} else {
 		r.Pass("reg/hand-off", key, p.posStr(fd.Pos()), fmt.Sprintf("callback pushed and execution-locked (tagged with the current update id) while the value mutex is held; %d snapshot call(s) on the receiver inside the same section", nSnapshot))
 	}
-	// unsubscribe closure
-	var ret *ast.FuncLit
-	for _, st := range fd.Body.List {
-		if rs, ok := st.(*ast.ReturnStmt); ok && len(rs.Results) == 1 {
-			ret, _ = rs.Results[0].(*ast.FuncLit)
-		}
-	}
+	// the unsubscribe function the registration returns: a literal, or a method of a subscription
+	// struct used as a method value (its fields are what the literal would have captured)
 	okRemove, okMark := false, false
-	if ret != nil {
-		// the unsubscribe function, with a named helper it may delegate to expanded in place
-		uf := newFuncCFG(p, info, ret.Body, key+"$unsubscribe")
-		for _, cl := range uf.Calls(func(*ast.CallExpr) bool { return true }) {
-			pt, okp := uf.PointOf(cl)
-			if !okp {
-				continue
-			}
-			if strings.HasSuffix(exprKey(cl.Fun), "Callbacks.Remove") && len(cl.Args) == 1 {
-				if uf.IsVar(cl.Args[0], pt, elemVar) {
-					okRemove = true
+	for _, st := range fd.Body.List {
+		rs, ok := st.(*ast.ReturnStmt)
+		if !ok || len(rs.Results) != 1 {
+			continue
+		}
+		for _, ret := range callbacksIn(p, info, rs.Results[0]) {
+			// with a named helper it may delegate to expanded in place
+			uf := newFuncCFG(p, info, ret.Body, key+"$unsubscribe")
+			is := func(e ast.Expr, pt Point, v types.Object) bool {
+				if uf.IsVar(e, pt, v) {
+					return true
 				}
+				re, _ := uf.Resolve(e, pt)
+				for _, x := range []ast.Expr{e, re} {
+					if x == nil {
+						continue
+					}
+					if c := ret.Captured(p, info, x, fd.Body); c != nil && objOfIdent(info, c) == v {
+						return true
+					}
+				}
+				return false
 			}
-			if x, ok := reactiveCalleeIs(info, cl, "MarkUnsubscribed"); ok {
-				if uf.IsVar(x, pt, cbVar) {
-					okMark = true
+			for _, cl := range uf.Calls(func(*ast.CallExpr) bool { return true }) {
+				pt, okp := uf.PointOf(cl)
+				if !okp {
+					continue
+				}
+				if strings.HasSuffix(exprKey(cl.Fun), "Callbacks.Remove") && len(cl.Args) == 1 {
+					if is(cl.Args[0], pt, elemVar) {
+						okRemove = true
+					}
+				}
+				if x, ok := reactiveCalleeIs(info, cl, "MarkUnsubscribed"); ok {
+					if is(x, pt, cbVar) {
+						okMark = true
+					}
 				}
 			}
 		}
